@@ -13,6 +13,7 @@ PID = 'C10'
 INVS = ['KernelIsJointEquality', 'CandidatesAreCombinations', 'LeastFirst', 'Fair']
 
 CHARMAPS = [{1: '1', 2: 'a'}, {1: '0', 2: '1'}, {1: 'é', 2: '1'}, {1: 'ab', 2: 'a'}, {1: '-', 2: ','}]
+SEPARATORS = [':', ',', '|', ' ', '-', '\x00', ';', '\t', '\x1f', '_', '&', '1:', "', '"]
 
 
 def consts(nfeat, nrows, values, order, cap, batches, concat=False):
@@ -66,11 +67,12 @@ def main():
 
     if tier == 'quick':
         runs = [('order2-3x2', consts(3, 2, 'Adversarial', 2, 2, 2)), ('order3-3x3-digits', consts(3, 3, 'Digits', 3, 1, 1)),
-                ('order2-2x3', consts(2, 3, 'Adversarial', 2, 5, 1))]
+                ('order2-2x3', consts(2, 3, 'Adversarial', 2, 5, 1)), ('order2-2x2-separators', consts(2, 2, 'Delims', 2, 5, 1))]
     else:
         runs = [('order2-3x2', consts(3, 2, 'Adversarial', 2, 2, 3)), ('order3-3x3-digits', consts(3, 3, 'Digits', 3, 1, 1)),
                 ('order2-2x3', consts(2, 3, 'Adversarial', 2, 5, 1)), ('order2-4x2-digits', consts(4, 2, 'Digits', 2, 4, 3)),
-                ('order4-4x2-digits', consts(4, 2, 'Digits', 4, 1, 1)), ('order3-4x2-digits', consts(4, 2, 'Digits', 3, 3, 2))]
+                ('order4-4x2-digits', consts(4, 2, 'Digits', 4, 1, 1)), ('order3-4x2-digits', consts(4, 2, 'Digits', 3, 3, 2)),
+                ('order2-2x2-separators', consts(2, 2, 'Delims', 2, 5, 1)), ('order3-3x2-separators', consts(3, 2, 'Delims', 3, 5, 1))]
     for label, c in runs:
         res, cases = run_spec(V, f'Interactions/{label}', c, coverage=(label == 'order2-3x2'))
         if not cases:
@@ -84,12 +86,19 @@ def main():
         for cs in cases:
             byframe.setdefault(repr(cs['frame']), {})[cs['batch']] = cs
         jobs, meta = [], []
+        variants = []
         for key, bb in byframe.items():
             nb = max(bb)
             if set(bb) != set(range(1, nb + 1)):
                 raise E.MachineryError('missing batch state')
+            if 'separators' in label:
+                # every candidate separator character takes the place of character 3
+                for sep in SEPARATORS:
+                    variants.append((bb, nb, {1: 'a', 2: 'b', 3: sep}))
+            else:
+                variants.append((bb, nb, CHARMAPS[rng.randrange(len(CHARMAPS))] if rng.random() < 0.5 else CHARMAPS[0]))
+        for bb, nb, cmap in variants:
             frame = bb[1]['frame']
-            cmap = CHARMAPS[rng.randrange(len(CHARMAPS))] if rng.random() < 0.5 else CHARMAPS[0]
             nfeat, nrows = len(frame), len(frame[0])
             names = [f'f{i + 1}' for i in range(nfeat)]
             cols = list(names)
